@@ -40,6 +40,13 @@ def run(tier, seed, replay=None):
             todo.append((sp, None))
     for spec, forced in todo:
         pd = len(spec['bases'])
+        if not forced and rng.random() < 0.15:
+            # the same periodic knot vector far from the origin and compressed (neighbouring knots closer than 1e-5 of their
+            # magnitude, still thousands of tolerances apart): opening, rolling and lowering must keep them apart
+            for b_ in spec['bases']:
+                if b_['periodic'] >= 0:
+                    k0_ = b_['knots'][0]
+                    b_['knots'] = [4096 + (x_ - k0_) / 64 for x_ in b_['knots']]
         o = O.make_impl(spec)
         pre = O.snapshot(o)
         pdirs = [d for d, b in enumerate(spec['bases']) if b['periodic'] >= 0]
